@@ -4,6 +4,7 @@
 From Coq Require Import List Ascii Bool Arith Relations.
 From Coq Require String.
 Import String.StringSyntax.
+From DT Require Import PyAst Locate C15Spec LocateFacts RewriteFacts C15Facts SyncLocate.
 From DT Require Import PyStr Sexp PyVal PureUtils FS Sync Cli PyStrFacts FSFacts SyncFacts CliFacts.
 Import ListNotations.
 
@@ -77,3 +78,124 @@ Theorem C09_laws_satisfiable :
      [L "modified" ++ [tabch] ++ L "f.py"]).
 Proof. exact laws_satisfiable. Qed.
 Print Assumptions C09_laws_satisfiable.
+
+(* ---- the tree layer instantiated with the Locate model (proofs/SyncLocate.v, from the C15 theorems) ---- *)
+(* Locate layer: inside guard_C15 the node the finder returns is the node resolve names (position and content), or None when there is none *)
+Theorem C09_find_is_resolve :
+    forall (m : module) (q : list str),
+    guard_C15 m q = true -> option_map node_view (loc_find q (annotate m)) = resolve q m.
+Proof. exact loc_find_resolve. Qed.
+Print Assumptions C09_find_is_resolve.
+
+(* conform over the Locate layer, inside guard_C15: a modification appends because resolve finds nothing, or rewrites at the node resolve names *)
+Theorem C09_sync_works_on_resolved_node :
+    forall (irT opts : Type) (emit_k : kind -> irT -> opts -> outcome anode)
+      (parse_file : path -> bytes -> outcome amodule) (cmp : anode -> anode -> bool)
+      (render_node : anode -> outcome bytes) (render_tree : amodule -> outcome bytes)
+      (opts_of : option anode -> list str -> kind -> opts) (type_ok : kind -> anode -> bool)
+      (fs : fsys) (file : path) (search : list str) (k : kind) (ir : irT) 
+      (f : fault) (fs' : fsys) (pr : list str) (content : bytes) (m : module),
+    conform emit_k parse_file loc_find loc_rewrite cmp render_node render_tree opts_of type_ok fs
+      file search k ir f = (fs', Ok true, pr) ->
+    fs_get file fs = Some content ->
+    parse_file file content = Ok (annotate m) ->
+    guard_C15 m search = true ->
+    resolve search m = None /\
+    (exists (n : anode) (src : bytes),
+       emit_k k ir (opts_of None search k) = Ok n /\
+       render_node n = Ok src /\ fs' = written fs file Ap src) \/
+    (exists (o n : anode) (t' : amodule) (src : bytes),
+       loc_find search (annotate m) = Some o /\
+       resolve search m = Some (node_view o) /\
+       emit_k k ir (opts_of (Some o) search k) = Ok n /\
+       cmp o n = false /\
+       loc_rewrite search n (annotate m) = (t', true) /\
+       render_tree t' = Ok src /\ fs' = written fs file Wt src).
+Proof. exact sync_works_on_resolved_node. Qed.
+Print Assumptions C09_sync_works_on_resolved_node.
+
+(* the node a settled target is compared at is the one resolve names *)
+Theorem C09_settled_node_is_resolved :
+    forall (irT opts : Type) (emit_k : kind -> irT -> opts -> outcome anode)
+      (parse_file : path -> bytes -> outcome amodule) (cmp : anode -> anode -> bool)
+      (opts_of : option anode -> list str -> kind -> opts) (type_ok : kind -> anode -> bool)
+      (fs : fsys) (file : path) (search : list str) (k : kind) (ir : irT) 
+      (m : module) (content : bytes),
+    settled anode amodule irT opts emit_k parse_file loc_find loc_rewrite cmp opts_of type_ok fs file
+      search k ir ->
+    fs_get file fs = Some content ->
+    parse_file file content = Ok (annotate m) ->
+    guard_C15 m search = true ->
+    exists o n : anode,
+      resolve search m = Some (node_view o) /\
+      emit_k k ir (opts_of (Some o) search k) = Ok n /\
+      (cmp o n = true \/ snd (loc_rewrite search n (annotate m)) = false).
+Proof. exact settled_node_is_resolved. Qed.
+Print Assumptions C09_settled_node_is_resolved.
+
+(* when REPLACES holds of the Locate rewriter: inside both guards what the finder found is replaced, at its position *)
+Theorem C09_replaces_resolved_nodes :
+    forall (m : module) (q : list str) (n o : anode) (m' : amodule) (st : rw_state),
+    guard_C15 m q = true ->
+    rw_guard_C15 m q = true ->
+    loc_find q (annotate m) = Some o ->
+    rewrite_visit q n (annotate m) = Ok (NMod m', st) ->
+    q <> [] ->
+    loc_rewrite q n (annotate m) = (m', true) /\
+    replaced_first q (rw_node st) (fst (node_view o)) (annotate m) m'.
+Proof. exact replaces_resolved_nodes. Qed.
+Print Assumptions C09_replaces_resolved_nodes.
+
+(* the ClassDef case *)
+Theorem C09_replaces_class_nodes :
+    forall (m : module) (q : list str) (n : anode) (i : Locate.path) (l : option loc) 
+      (name : str) (bs : list expr) (body : list astmt) (d : list expr) (m' : amodule)
+      (st : rw_state),
+    guard_C15 m q = true ->
+    rw_guard_C15 m q = true ->
+    loc_find q (annotate m) = Some (NStmt (AClass i l name bs body d)) ->
+    rewrite_visit q n (annotate m) = Ok (NMod m', st) ->
+    q <> [] ->
+    loc_rewrite q n (annotate m) = (m', true) /\ replaced_first q (rw_node st) i (annotate m) m'.
+Proof. exact replaces_class_nodes. Qed.
+Print Assumptions C09_replaces_class_nodes.
+
+(* finding found-definition-not-replaced: a FunctionDef target that no tested node carries is never replaced, whatever the replacement node *)
+Theorem C09_function_nodes_never_replaced :
+    forall (m : module) (q : list str) (n : anode),
+    rw_finding_class_C15 m q = Some KR_function_target ->
+    (exists
+       (p : Locate.path) (name : str) (args : arguments) (body : list stmt) 
+     (d : list expr) (r : option expr), resolve q m = Some (p, PStmt (SFunc name args body d r))) /\
+    snd (loc_rewrite q n (annotate m)) = false.
+Proof. exact function_nodes_never_replaced. Qed.
+Print Assumptions C09_function_nodes_never_replaced.
+
+(* witness: def helper is found inside guard_C15 and never replaced *)
+Theorem C09_helper_found_not_replaced :
+    (exists o : anode,
+       loc_find [L "helper"] (annotate [w_helper; w_C]) = Some o /\ fst (node_view o) = [0]) /\
+    guard_C15 [w_helper; w_C] [L "helper"] = true /\
+    rw_finding_class_C15 [w_helper; w_C] [L "helper"] = Some KR_function_target /\
+    (forall n : anode, snd (loc_rewrite [L "helper"] n (annotate [w_helper; w_C])) = false).
+Proof. exact helper_found_not_replaced. Qed.
+Print Assumptions C09_helper_found_not_replaced.
+
+(* hence the law REPLACES is false of the Locate layer *)
+Theorem C09_REPLACES_refuted :
+    ~ REPLACES_law anode amodule loc_find loc_rewrite.
+Proof. exact REPLACES_law_refuted. Qed.
+Print Assumptions C09_REPLACES_refuted.
+
+(* non-vacuity of the positive half *)
+Theorem C09_class_target_replaced :
+    let m := [w_C; w_helper] in
+    let n := NStmt (AClass [] None (L "C") [] [] []) in
+    guard_C15 m [L "C"] = true /\
+    rw_guard_C15 m [L "C"] = true /\
+    option_map (fun o : anode => fst (node_view o)) (loc_find [L "C"] (annotate m)) = Some [0] /\
+    snd (loc_rewrite [L "C"] n (annotate m)) = true /\
+    others_ref (annotate m) [L "C"] (fst (loc_rewrite [L "C"] n (annotate m))) =
+    [annotate_stmt [] [1] w_helper] /\ rw_guard_C15 m [L "helper"] = false.
+Proof. exact class_target_replaced_example. Qed.
+Print Assumptions C09_class_target_replaced.
